@@ -204,7 +204,7 @@ func runC04(c *ctx) {
 			{rel: true, name: "author", toOne: true, target: "people"}, {rel: true, name: "tags", target: "people"}}}
 		ppl := typeSpec{name: "people", fields: []fieldSpec{{name: "first", code: 1}, {name: "last", code: 1}, {name: "last,first", code: 1},
 			{rel: true, name: "boss", toOne: true, target: "people"}}}
-		com := typeSpec{name: "comments", noFrom: true, fields: []fieldSpec{{name: "body", code: 1}, {name: "ip", code: 1},
+		com := typeSpec{name: "comments", fromOther: true, fields: []fieldSpec{{name: "body", code: 1}, {name: "ip", code: 1},
 			{rel: true, name: "author", toOne: true, target: "people"}}}
 		sc := schemaSpec{types: []typeSpec{art, ppl, com}, wrapped: map[string]bool{}}
 		a1 := resSpec{tn: "articles", ops: []setOp{{"id", "a1"}, {"title", "t"}, {"body", "b"}, {"author", "p1"}, {"tags", []string{"t2", "t1"}}}}
@@ -219,9 +219,11 @@ func runC04(c *ctx) {
 			{"articles": {"tags"}, "people": {"first", "last"}, "comments": {"author", "body"}},
 		} {
 			for _, order := range [][]resSpec{{a1, c1}, {c1, a1}, {a1, c1, a1}} {
-				d := docSpec{sc: sc, dataKind: "resources", prepath: "/p", urlFrags: []string{"articles"}, fields: sel, relData: allRD,
-					data: order, included: []resSpec{p1}}
-				c04Case(c, d, "fixed")
+				for _, rd := range []map[string][]string{allRD, {"articles": {"tags"}, "comments": {"author"}}, {"articles": {"author"}, "comments": {}}} {
+					d := docSpec{sc: sc, dataKind: "resources", prepath: "/p", urlFrags: []string{"articles"}, fields: sel, relData: rd,
+						data: order, included: []resSpec{p1}}
+					c04Case(c, d, "fixed")
+				}
 			}
 			d := docSpec{sc: sc, dataKind: "resource", prepath: "", urlFrags: []string{"articles", "a1"}, fields: sel, relData: allRD,
 				data: []resSpec{a1}, included: []resSpec{p1, c1}}
